@@ -548,6 +548,7 @@ func (e *Exec) evalGhostBuiltin(st *State, call *ast.CallExpr, name string) Term
 		return And(Eq(e.S.SlLen(a), e.S.SlLen(b)), e.permPred(e.S.SlArr(a), e.S.SlArr(b), e.S.SlLen(a)))
 	case "__json":
 		v := e.evalUnboxed(st, call.Args[0])
+		e.customEncodingObligations(e.typeOf(call.Args[0]), call.Pos())
 		return e.jsonOf(v)
 	case "__visset":
 		for i := len(e.vis) - 1; i >= 0; i-- {
@@ -1796,4 +1797,70 @@ func (e *Exec) assumeReliesOf(st, pre *State, cb string, own map[string]bool, po
 			}
 		}
 	}
+}
+
+
+// customEncodingObligations: `__json(v)` stands for what the standard encoder writes for v's *fields*, and the assumed
+// round trip (Unmarshal(Marshal(v)) restores v) is a statement about the standard, reflection-driven encoding. A type
+// reachable from v that declares its own encoding method (MarshalJSON, UnmarshalJSON, MarshalText, ... or the codec
+// self-encoders) replaces that encoding for every value that contains it, so the assumption no longer describes what
+// runs. For every such method without a contract of its own, an obligation that never discharges is emitted once per
+// verified function: `…/codec/custom-encoding/<pkg>.<Type>.<Method>` (seed C15-5).
+func (e *Exec) customEncodingObligations(t types.Type, pos token.Pos) {
+	if t == nil {
+		return
+	}
+	if e.customEncSeen == nil {
+		e.customEncSeen = map[string]bool{}
+	}
+	names := map[string]bool{"MarshalJSON": true, "UnmarshalJSON": true, "MarshalText": true, "UnmarshalText": true,
+		"MarshalBinary": true, "UnmarshalBinary": true, "CodecEncodeSelf": true, "CodecDecodeSelf": true, "GobEncode": true, "GobDecode": true}
+	seen := map[types.Type]bool{}
+	var walk func(t types.Type)
+	walk = func(t types.Type) {
+		if t == nil || seen[t] {
+			return
+		}
+		seen[t] = true
+		if n, ok := t.(*types.Named); ok {
+			if n.Obj() != nil && n.Obj().Pkg() != nil && e.P.Pkgs[n.Obj().Pkg().Path()] != nil {
+				for _, mt := range []types.Type{n, types.NewPointer(n)} {
+					ms := types.NewMethodSet(mt)
+					for i := 0; i < ms.Len(); i++ {
+						fn, ok := ms.At(i).Obj().(*types.Func)
+						if !ok || !names[fn.Name()] {
+							continue
+						}
+						if fi := e.P.Funcs[fn]; fi != nil && fi.C != nil {
+							continue // under contract: its own obligations say what it does
+						}
+						key := shortPkg(n.Obj().Pkg().Path()) + "." + n.Obj().Name() + "." + fn.Name()
+						if e.customEncSeen[key] {
+							continue
+						}
+						e.customEncSeen[key] = true
+						e.Ctx.AddObligation(e.Fn.FullName(), "codec", fmt.Sprintf("%s/codec/custom-encoding/%s", e.fnName(), key), True, False, e.pos(pos))
+					}
+				}
+			}
+			walk(n.Underlying())
+			return
+		}
+		switch u := t.(type) {
+		case *types.Pointer:
+			walk(u.Elem())
+		case *types.Slice:
+			walk(u.Elem())
+		case *types.Array:
+			walk(u.Elem())
+		case *types.Map:
+			walk(u.Key())
+			walk(u.Elem())
+		case *types.Struct:
+			for i := 0; i < u.NumFields(); i++ {
+				walk(u.Field(i).Type())
+			}
+		}
+	}
+	walk(t)
 }
